@@ -124,21 +124,51 @@ class Celestial(Dynamics, metaclass=ABCMeta):
             ``ndarray``: updated state vector after applying any events.
         """
         # Save original shape of the input state
-        for event_index, event in enumerate(events):
-            if t_events[event_index].size > 0:
-                current_time = t_events[event_index][-1]
-                if isinstance(event, ScheduledFiniteThrust):
-                    self.finite_thrust = event.getStateChangeCallback(current_time)
-                else:
-                    current_state += event.getStateChange(current_time, current_state[:, 0])[
-                        :,
-                        None,
-                    ]
+        for event, current_time in self._getOccurredEvents(t_events, events):
+            if isinstance(event, ScheduledFiniteThrust):
+                self.finite_thrust = event.getStateChangeCallback(current_time)
+            else:
+                current_state += event.getStateChange(current_time, current_state[:, 0])[
+                    :,
+                    None,
+                ]
 
         return current_state
 
     @staticmethod
+    def _getOccurredEvents(
+        t_events: ndarray,
+        events: list[ScheduledEventType],
+    ) -> list[tuple[ScheduledEventType, float]]:
+        r"""Determine which events occurred when integration stopped, and when.
+
+        Args:
+            t_events (``ndarray``): times of events that occurred during integration.
+            events (``list``): event functions that were passed to the integrator.
+
+        Returns:
+            ``list``: (event, time) pairs of the events that need to be applied.
+        """
+        occurred = [
+            (event, t_event[-1]) for t_event, event in zip(t_events, events) if t_event.size > 0
+        ]
+        if occurred:
+            # The solver only reports the first of several terminal events that occur at the same
+            # time, so scheduled impulses coinciding with the time integration stopped at are
+            # collected as well, otherwise they are silently dropped.
+            stop_time = max(time for _, time in occurred)
+            occurred.extend(
+                (event, stop_time)
+                for t_event, event in zip(t_events, events)
+                if t_event.size == 0
+                and isinstance(event, ScheduledImpulse)
+                and event(stop_time, None) == 0.0
+            )
+        return occurred
+
+    @classmethod
     def _dropAppliedImpulses(
+        cls,
         t_events: ndarray,
         events: list[ScheduledEventType],
     ) -> list[ScheduledEventType]:
@@ -155,10 +185,11 @@ class Celestial(Dynamics, metaclass=ABCMeta):
         Returns:
             ``list``: event functions to watch for when integration restarts.
         """
+        applied = [event for event, _ in cls._getOccurredEvents(t_events, events)]
         return [
             event
-            for t_event, event in zip(t_events, events)
-            if not (isinstance(event, ScheduledImpulse) and t_event.size > 0)
+            for event in events
+            if not (isinstance(event, ScheduledImpulse) and any(event is done for done in applied))
         ]
 
     def propagate(
